@@ -244,13 +244,19 @@ fn add_case(k: u32, a: u64, n: u64) -> Value {
 /// exactly Place_k * 2^(32-k) + c_ts.  Cases the spec leaves unconstrained
 /// (distance exactly half a cycle, placement before the epoch) carry
 /// free = true and are executed for totality only.
-fn place_case(k: u32, refk: u64, ts: u64, free: bool) -> Value {
+fn place_case(k: u32, refk: u64, ts: u64, free: bool, tie: bool) -> Value {
     let sh = 32 - k;
     let s: u64 = 1u64 << sh;
     let (era, r) = (refk >> k, refk & ((1u64 << k) - 1));
     let mut rng = Rng::new(seed() ^ (refk << 23) ^ (ts << 7) ^ (k as u64) << 43);
     let mut offs: Vec<(u64, u64)> = vec![(0, 0), (s - 1, s - 1)];
-    if !free {
+    if tie {
+        // the serial is exactly half a cycle from the reference: only equal
+        // offsets keep the 32-bit pair at distance exactly 2^31 (the distances
+        // 2^31 - 1 and 2^31 + 1 are reached from the k-bit neighbours below)
+        let c = rng.below(s);
+        offs.extend_from_slice(&[(1 % s, 1 % s), (c, c)]);
+    } else if !free {
         offs.extend_from_slice(&[(1 % s, 0), (0, 1 % s), (s - 1, 0), (0, s - 1),
                                  (rng.below(s), rng.below(s))]);
     }
@@ -545,6 +551,7 @@ fn main() {
                 input["ref"].as_u64().unwrap_or(0),
                 input["ts"].as_u64().unwrap_or(0),
                 input["free"].as_bool().unwrap_or(false),
+                input["tie"].as_bool().unwrap_or(false),
             ),
             _ => json!({"bad_case": true}),
         }
